@@ -132,6 +132,56 @@ pub fn family(root_fen: &str) -> Vec<RootSpec> {
     v
 }
 
+/// every shuffle history a b a' b' a from `root_fen` (first `max_a` reversible moves a, every reversible reply b):
+/// the record's last move equals the fifth-last, so the root repetition filter (and anything that imitates it) fires,
+/// and for every possible "repetition move" b there is one root
+pub fn all_shuffles(root_fen: &str, max_a: usize) -> Vec<RootSpec> {
+    let mut v = vec![];
+    let Ok(parsed) = parse_fen_strict(root_fen) else { return v };
+    let p = parsed.pos.normalised();
+    let rev = |m: &Mv| -> Option<Mv> {
+        if m.captured != 0 || kind_of(m.piece) == P || m.kind != MvKind::Normal {
+            None
+        } else {
+            Some(Mv { from: m.to, to: m.from, ..*m })
+        }
+    };
+    let mut la = p.legal();
+    la.sort_by_key(|m| m.uci());
+    let mut used_a = 0;
+    for a in &la {
+        let Some(a_back) = rev(a) else { continue };
+        let p1 = p.apply(a).normalised();
+        let mut any = false;
+        let mut lb = p1.legal();
+        lb.sort_by_key(|m| m.uci());
+        for b in &lb {
+            let Some(b_back) = rev(b) else { continue };
+            let p2 = p1.apply(b).normalised();
+            if !p2.legal().iter().any(|m| m.uci() == a_back.uci()) {
+                continue;
+            }
+            let p3 = p2.apply(&a_back).normalised();
+            if !p3.legal().iter().any(|m| m.uci() == b_back.uci()) {
+                continue;
+            }
+            let p4 = p3.apply(&b_back).normalised();
+            if !p4.legal().iter().any(|m| m.uci() == a.uci()) {
+                continue;
+            }
+            v.push(RootSpec::with(root_fen, &format!("{} {} {} {} {}", a.uci(), b.uci(), a_back.uci(), b_back.uci(), a.uci())));
+            any = true;
+        }
+        if any {
+            used_a += 1;
+            if used_a >= max_a {
+                break;
+            }
+        }
+    }
+    v
+}
+
 #[derive(Clone, Debug, PartialEq)]
 pub enum Op {
     Search(usize, u8),
